@@ -10,6 +10,7 @@ CONSTANTS
   PingReaderCtx = "parent"
   PingErrSend = "blocking"
   PingUnrMax = 2
+  DeliveryHoldsRLock = FALSE
   KF_HalfCloseOnly = TRUE
 INVARIANTS
   TypeOK
@@ -18,4 +19,5 @@ INVARIANTS
   NoLockCycle
 PROPERTIES
   ShutdownStops
+  CloseReturns
   ListenerCloseReturns
